@@ -27,4 +27,52 @@ theorem mapSel_cons_ok (m : String → Bool) (f : Res → Except Err Res) (r : R
   · rintro ⟨r', h1, rs', h2, h3⟩; exact ⟨r', rs', h1, h2, h3.symm⟩
   · rintro ⟨r', rs', h1, h2, h3⟩; exact ⟨r', h1, rs', h2, h3.symm⟩
 
+theorem Row.keys_set (row : Row) (k : String) (v : Val) :
+    ∀ x, x ∈ Row.keys (Row.set row k v) ↔ x ∈ Row.keys row ∨ x = k := by
+  induction row with
+  | nil => intro x; simp [Row.set, Row.keys]
+  | cons kv rest ih =>
+    intro x
+    obtain ⟨k', v'⟩ := kv
+    by_cases hkk : k' = k
+    · subst hkk
+      simp only [Row.set, if_true, Row.keys, List.map_cons, List.mem_cons]
+      constructor
+      · rintro (h | h); exact Or.inl (Or.inl h); exact Or.inl (Or.inr h)
+      · rintro ((h | h) | h); exact Or.inl h; exact Or.inr h; exact Or.inl h
+    · have ih' := ih x
+      simp only [Row.keys] at ih'
+      simp only [Row.set, hkk, if_false, Row.keys, List.map_cons, List.mem_cons, ih']
+      constructor
+      · rintro (h | h | h); exact Or.inl (Or.inl h); exact Or.inl (Or.inr h); exact Or.inr h
+      · rintro ((h | h) | h); exact Or.inl h; exact Or.inr (Or.inl h); exact Or.inr (Or.inr h)
+
+theorem Row.get?_set_ne (row : Row) (k k' : String) (v : Val) (h : k' ≠ k) :
+    Row.get? (Row.set row k v) k' = Row.get? row k' := by
+  induction row with
+  | nil => simp [Row.set, Row.get?, h.symm]
+  | cons kv rest ih =>
+    obtain ⟨k0, v0⟩ := kv
+    by_cases h0 : k0 = k
+    · subst h0; simp [Row.set, Row.get?, h.symm]
+    · by_cases h1 : k0 = k'
+      · subst h1; simp [Row.set, h0, Row.get?]
+      · simp [Row.set, h0, Row.get?, h1, ih]
+
+theorem Row.get?_set_eq (row : Row) (k : String) (v : Val) : Row.get? (Row.set row k v) k = some v := by
+  induction row with
+  | nil => simp [Row.set, Row.get?]
+  | cons kv rest ih =>
+    obtain ⟨k0, v0⟩ := kv
+    by_cases h0 : k0 = k
+    · simp [Row.set, h0, Row.get?]
+    · simp [Row.set, h0, Row.get?, ih]
+
+theorem Row.getD_set_ne (row : Row) (k k' : String) (v : Val) (h : k' ≠ k) :
+    Row.getD (Row.set row k v) k' = Row.getD row k' := by
+  simp [Row.getD, Row.get?_set_ne row k k' v h]
+
+theorem Row.getD_set_eq (row : Row) (k : String) (v : Val) : Row.getD (Row.set row k v) k = v := by
+  simp [Row.getD, Row.get?_set_eq]
+
 end Df
